@@ -320,6 +320,21 @@ class Effects:
                     out.append(Site(f, x, "OdxError", "odxrequire",
                                     self._trigger(f, ([x.args[0]] if x.args else [])),
                                     ast.unparse(x)[:80], st))
+                elif nm == "encode" and isinstance(x.func, ast.Attribute) and (
+                        x.args or x.keywords) and not any(
+                            k.arg == "errors" and isinstance(k.value, ast.Constant) and
+                            k.value.value != "strict" for k in x.keywords) and len(x.args) < 2:
+                    # str.encode(codec): characters the codec cannot represent raise
+                    # UnicodeEncodeError -- an implicit, value-triggered exception (every codec
+                    # but the UTF family is partial; the UTF ones reject lone surrogates)
+                    codec = x.args[0] if x.args else [k.value for k in x.keywords
+                                                      if k.arg == "encoding"][:1]
+                    codec = codec[0] if isinstance(codec, list) and codec else codec
+                    recv = x.func.value
+                    if codec is not None and not isinstance(recv, ast.Constant) and \
+                            self._is_data(recv, self._data_names(f)):
+                        out.append(Site(f, x, "UnicodeEncodeError", "implicit", "value",
+                                        ast.unparse(x)[:80], stmt_of(x)))
         self._own[f.key] = out
         return out
 
